@@ -8,8 +8,8 @@ import (
 	"testing"
 
 	"github.com/freeconf/yang/node"
-	"github.com/freeconf/yang/val"
 	"github.com/freeconf/yang/nodeutil"
+	"github.com/freeconf/yang/val"
 	"pgregory.net/rapid"
 
 	"verif/harness/dm"
@@ -34,6 +34,9 @@ type c16Case struct {
 	// Own (uses-when, augment-when): the guarded leaf y2 / y also states a when of its own, "w='on'", and w holds "on"
 	// (Own = "holds") or "off" (Own = "fails"): a node is there when both conditions hold
 	Own string `json:"own,omitempty"`
+	// Hide (reads): the request also carries a fields= ("fields") or fc.xfields= ("xfields") parameter that leaves the
+	// operand of the expression out of the answer: what the expression decides stays the same, the answer is its projection
+	Hide string `json:"hide,omitempty"`
 }
 
 func c16Type(base string) *dm.Type {
@@ -146,7 +149,14 @@ func c16Run(c c16Case, o *hx.Obs) {
 	ty := c16Type(c.Base)
 	expr := c16Expr(c)
 	// the operand leaf, directly or inside the containers the path of the expression steps through
-	zLeaf := func() *dm.Node {
+	zLeaf := func() (top *dm.Node) {
+		defer func() {
+			if c.Hide == "content" {
+				// the operand is state data, the request asks for configuration only
+				f := false
+				top.Config = &f
+			}
+		}()
 		z := &dm.Node{Kind: "leaf", Name: "z", Type: ty}
 		switch c.Shape {
 		case "nested", "nested-prefixed":
@@ -441,20 +451,79 @@ func c16Run(c c16Case, o *hx.Obs) {
 		return
 	}
 	// read
+	// the parameter that leaves the operand (and the operand w of the guarded node's own when) out of the answer, and the
+	// same done to the expected answer
+	zn := map[string]string{"": "z", "nested": "h", "nested-prefixed": "h", "nested2": "h", "through-list": "m"}[c.Shape]
+	hideParam := func(sep string, inList bool) string {
+		if c.Hide == "" {
+			return ""
+		}
+		var keep, drop []string
+		switch {
+		case inList:
+			keep, drop = []string{"k", "other"}, []string{zn}
+		case c.Placement == "container-when":
+			keep, drop = []string{"y/other", "out"}, []string{"y/" + zn}
+		case c.Placement == "leaf-when":
+			keep, drop = []string{"y", "out"}, []string{zn}
+		case c.Placement == "uses-when":
+			keep, drop = []string{"y", "y2", "out"}, []string{zn, "w"}
+		case c.Placement == "augment-when":
+			keep, drop = []string{"c/y", "c/out"}, []string{"c/" + zn, "c/w"}
+		case c.Placement == "list-when":
+			keep, drop = []string{"l/k", "l/other", "out"}, []string{"l/" + zn}
+		}
+		if c.Hide == "content" {
+			return sep + "content=config"
+		}
+		if c.Hide == "fields" {
+			return sep + "fields=" + url.QueryEscape(strings.Join(keep, ";"))
+		}
+		return sep + "fc.xfields=" + url.QueryEscape(strings.Join(drop, ";"))
+	}
+	if c.Hide != "" {
+		o.Class("operand left out of the answer by %s", c.Hide)
+		var strip func(v interface{}) interface{}
+		strip = func(v interface{}) interface{} {
+			switch x := v.(type) {
+			case dm.Tree:
+				out := dm.Tree{}
+				for k, e := range x {
+					if k != zn && (k != "w" || c.Hide == "content") {
+						out[k] = strip(e)
+					}
+				}
+				return out
+			case []interface{}:
+				out := make([]interface{}, len(x))
+				for i, e := range x {
+					out[i] = strip(e)
+				}
+				return out
+			}
+			return v
+		}
+		want = strip(want).(dm.Tree)
+	}
 	var text string
 	var rerr error
 	if o.Guard("read", func() {
 		sel := node.NewBrowser(mm, dm.NewRS(modelRoot, dm.CloneTree(data))).Root()
 		if c.Placement == "list-when-where" {
 			// a where that holds for every row must not bring back rows their when hides
-			sel, rerr = sel.Find("l?where=" + url.QueryEscape("k>=0"))
+			sel, rerr = sel.Find("l?where=" + url.QueryEscape("k>=0") + hideParam("&", true))
 			if rerr != nil || sel == nil {
 				rerr = fmt.Errorf("Find: %v", rerr)
 				return
 			}
-		}
-		if c.Placement == "where" {
-			sel, rerr = sel.Find("l?where=" + url.QueryEscape(expr))
+		} else if c.Placement == "where" {
+			sel, rerr = sel.Find("l?where=" + url.QueryEscape(expr) + hideParam("&", true))
+			if rerr != nil || sel == nil {
+				rerr = fmt.Errorf("Find: %v", rerr)
+				return
+			}
+		} else if c.Hide != "" {
+			sel, rerr = sel.Find(hideParam("?", false))
 			if rerr != nil || sel == nil {
 				rerr = fmt.Errorf("Find: %v", rerr)
 				return
@@ -534,6 +603,9 @@ func c16Gen(t *rapid.T) c16Case {
 		Shape: rapid.SampledFrom([]string{"", "", "", "nested", "nested2"}).Draw(t, "shape")}
 	if c.Placement == "where" && rapid.IntRange(0, 3).Draw(t, "through-list") == 0 {
 		c.Shape = "through-list"
+	}
+	if !c.Edit && c.Placement != "filter" && rapid.IntRange(0, 3).Draw(t, "hide") == 0 {
+		c.Hide = rapid.SampledFrom([]string{"fields", "xfields", "content"}).Draw(t, "hide-by")
 	}
 	if (c.Placement == "uses-when" || c.Placement == "augment-when") && !c.Edit {
 		c.Own = rapid.SampledFrom([]string{"", "holds", "fails"}).Draw(t, "own-when")
